@@ -671,8 +671,29 @@ def sweep_assignment(run, d, assignment, extras):
             return False
         return (r[1][0] != ref[1][0]) if loose else (r != ref)
 
+    limit_errors = ("MemoryQuotaExceededException", "CollectionTooLargeException")
+
+    def tolerated(label, r):
+        """on engines with limits: (a) two REFUSALS, one by a limit and one by resolution - which of them is reported first
+        is not part of the property; (b) a call() spelling refused by a limit where the direct spelling succeeds - the
+        argument list / keyword dict handed to call() is one more value, larger than any single argument"""
+        if not _quota_mode[0]:
+            return False
+        e1 = ref[0] == "error" and ref[1] in limit_errors
+        e2 = r[0] == "error" and r[1] in limit_errors
+        if ref[0] == "error" and r[0] == "error" and (e1 or e2):
+            return True
+        if e2 and ref[0] == "ok" and label.startswith("call()"):
+            return True
+        if e1 and r[0] == "ok" and ref_label.startswith("call()"):
+            return True
+        return False
+
     for label, r in results[1:]:
         if differs(r):
+            if tolerated(label, r):
+                run.count("quota_sweep:tolerated")
+                continue
             run.fail("violation", "two ways of passing the same arguments to a library function give different outcomes",
                      describe(d, assignment, extras, ref_label, ref, label, r))
             return len(results)
@@ -694,6 +715,7 @@ def sweep_assignment(run, d, assignment, extras):
 
 
 _nondeterministic = set()
+_quota_mode = [False]
 
 
 def outcome_class(r):
@@ -807,8 +829,36 @@ def quota_sweep(run, defs):
         cands = {p.name: [c for c in d.candidates(p) if c[0] == "V" and c[1] in big] for p in d.bound if d.kinds[p.name] == "value"}
         if any(cands.values()):
             usable.append((d, cands))
+    _quota_mode[0] = True
     try:
-        for d, cands in rng.sample(usable, min(run.n(45, 400), len(usable))):
+        # definitions callable BOTH as function and as method come first (their spellings include the method forms, whose
+        # receiver takes another path to the payload than a function argument), then a random sample of the rest
+        both = [u for u in usable if u[0].fd.is_function and u[0].fd.is_method]
+        rest = [u for u in usable if u not in both]
+        rng.shuffle(both)
+        order = both[:run.n(40, 400)] + rng.sample(rest, min(run.n(25, 400), len(rest)))
+        # deterministic part: every such definition with ONE argument just over the engine's limit, as literal and as variable
+        over = [(engines[0], ("bigstr", "biglist")), (engines[1], ("biglist",))]
+        for d, cands in both[:run.n(60, 400)]:
+            for eng_, keys in over:
+                for key in keys:
+                    target = next((name for name, cs in cands.items() if any(c[1] == key for c in cs)), None)
+                    if target is None:
+                        continue
+                    for as_literal in (True, False):
+                        g = gen_sweep_assignment(rng, d, set())
+                        if g is None:
+                            continue
+                        asg, extras = g
+                        asg[target] = ["L", LITERALS_OF[key]] if as_literal and key in LITERALS_OF else ["V", key]
+                        _engine_override[0] = eng_
+                        before = len(run.failures)
+                        n = sweep_assignment(run, d, asg, extras)
+                        run.count("quota_sweep:evaluations", n)
+                        if len(run.failures) > before:
+                            run.failures[-1].data["engine_options"] = dict(eng_.options)
+                            return
+        for d, cands in order:
             _engine_override[0] = rng.choice(engines)
             for as_literal in (True, False):
                 g = gen_sweep_assignment(rng, d, set())
@@ -823,10 +873,22 @@ def quota_sweep(run, defs):
                 n = sweep_assignment(run, d, asg, extras)
                 run.count("quota_sweep:evaluations", n)
                 if len(run.failures) > before:
-                    run.failures[-1].data["engine_options"] = dict(_engine_override[0].options)
+                    dd = run.failures[-1].data
+                    o1, o2 = dd.get("outcome_1"), dd.get("outcome_2")
+                    limit_errors = ("MemoryQuotaExceededException", "CollectionTooLargeException")
+                    if (isinstance(o1, (list, tuple)) and isinstance(o2, (list, tuple)) and o1 and o2 and o1[0] == "error" and o2[0] == "error"
+                            and (o1[1] in limit_errors or o2[1] in limit_errors)):
+                        # both spellings are REFUSED, one by a limit and one by resolution: which of two refusals is
+                        # reported first (the quota check of an argument or the type check of another) is not part of
+                        # "the same result or the same error class" for a call that is an error anyway
+                        del run.failures[before:]
+                        run.count("quota_sweep:both_refused_differently")
+                        continue
+                    dd["engine_options"] = dict(_engine_override[0].options)
                     return
     finally:
         _engine_override[0] = None
+        _quota_mode[0] = False
 
 
 def custom_convention_check(run):
